@@ -117,7 +117,7 @@ func TestVerif_C10(t *testing.T) {
 		var vkind, vdet string
 		prev := runtime.GOMAXPROCS(1)
 		p, leftover := vk.InBubble(t, func() {
-			res, _ := authWindow(t, "direct", r.Rand("c10w", i))
+			res, _ := authWindow(t, "direct", []string{"hook", "manager"}[i%2], r.Rand("c10w", i))
 			for _, c := range res {
 				if c.pipe == nil {
 					continue
